@@ -93,6 +93,15 @@ Checks(e) == <<
   <<"BinnedMIDef|mutual_information(binning)", BinMIWith(e, e.T - e.taumax)>>,
   <<"Relations|MutualInfoClimateNetwork.similarity_measure", MIRelations(e)>>,
   <<"PartialCorrDef|PartialCorrelationClimateNetwork.similarity_measure", PartialDef(e)>>,
+  \* data flagged "already anomalies" (not centred): the correlation statistics are the same
+  <<"AnomaliesFlag|climate similarity classes on data flagged as anomalies",
+    /\ ("tsonis" \in DOMAIN e.obs.x) = ("tsonis_anom" \in DOMAIN e.obs.x)
+    /\ ("partial" \in DOMAIN e.obs.x) = ("partial_anom" \in DOMAIN e.obs.x)
+    /\ ("tsonis_anom" \notin DOMAIN e.obs.x => CloseMat(e.obs.tsonis_anom, e.obs.tsonis, 5))
+    /\ ("spearman_anom" \notin DOMAIN e.obs.x => CloseMat(e.obs.spearman_anom, e.obs.spearman, 5))
+    /\ ("partial_anom" \notin DOMAIN e.obs.x =>
+            \A a \in 1..N : \A b \in 1..N : (a # b /\ PartialDefined(CovMat(e), a, b)) =>
+                 Close(e.obs.partial_anom[a][b], e.obs.partial[a][b], 50))>>,
   <<"MeanProductDef|Surrogates.test_pearson_correlation", TestPearsonDef(e)>>,
   <<"BinnedMIDef|Surrogates.test_mutual_information(2)", TestMIDef(e, "tmi2", 2)>>,
   <<"BinnedMIDef|Surrogates.test_mutual_information(4)", TestMIDef(e, "tmi4", 4)>>,
@@ -115,7 +124,7 @@ GaussUndefined(e) == \E a \in 1..N : \E b \in 1..N : \E L \in 0..e.taumax :
    a # b /\ (Var(x) = 0 \/ Var(y) = 0 \/ Var(x) * Var(y) = Cov(x, y) * Cov(x, y))
 Verdict(e) ==
   \* (with a constant series the correlation matrix has no inverse: the partial correlation is undefined)
-  IF DOMAIN e.obs.x \ ((IF GaussUndefined(e) THEN {"gauss", "gaussmax"} ELSE {}) \cup (IF Constant(e) THEN {"partial"} ELSE {})
+  IF DOMAIN e.obs.x \ ((IF GaussUndefined(e) THEN {"gauss", "gaussmax"} ELSE {}) \cup (IF Constant(e) THEN {"partial", "partial_anom"} ELSE {})
                      \* (all series constant: no common range to bin)
                      \cup (IF \A j \in 1..N : Var(Col(e, j)) = 0 THEN {"mi", "mi_perm"} ELSE {})) # {} THEN <<"REJECT", "Applicable", JoinSet({k \o ":" \o e.obs.x[k] : k \in DOMAIN e.obs.x}), Tags(e)>>
   ELSE LET f == FailsOf(Checks(e), "") IN
